@@ -6,6 +6,10 @@ Theorems (FinVerif/Props/C11*.lean) are about the GENERATED real model (Gen/Exot
 rainbow parities (given the bivariate-normal symmetry), lookback strike identities.
 Correspondence: the implementation (compiled `value_barrier` and the product classes) vs the Float
 instantiation of the same generated code (Driver/C11).
+Growth round (Props/C11d..C11h, Gen/Exotic2*, Model/C11, Driver/C11x, props/c11_grow.py): barrier-shift direction per type,
+far-side-of-strike branches, one-touch dead side / asset-at-hit / zero-rate consistency, rainbow put identities, compound
+on-put parity, simple chooser, lookback branch identities / parities / special-case = general shape (equity and FX), geometric
+Asian = Black–Scholes with adjusted drift and vol, FX (double) digital, cliquet loop, variance-swap replication identity.
 Direct oracles on the implementation (the executable reading of the property), run on every check:
 parities, non-negativity, domination by the vanilla, continuity at the barrier, and value = discounted
 risk-neutral expectation of the documented payoff by quadrature against the killed / first-passage / running
@@ -18,9 +22,10 @@ sys.path.insert(0, os.path.dirname(os.path.dirname(os.path.abspath(__file__))))
 import common as C  # noqa: E402
 from floatcmp import f2b, b2f, close  # noqa: E402
 
-GEN = ['ExoticF', 'ExoticR']
-PROPS = ['FinVerif.Props.C11a', 'FinVerif.Props.C11b', 'FinVerif.Props.C11c']
-DRIVERS = ['FinVerif.Driver.C11']
+GEN = ['ExoticF', 'ExoticR', 'Exotic2F', 'Exotic2R']
+PROPS = ['FinVerif.Props.C11a', 'FinVerif.Props.C11b', 'FinVerif.Props.C11c', 'FinVerif.Props.C11d', 'FinVerif.Props.C11e',
+         'FinVerif.Props.C11f', 'FinVerif.Props.C11g', 'FinVerif.Props.C11h']
+DRIVERS = ['FinVerif.Driver.C11', 'FinVerif.Driver.C11x']
 
 RULE = ('each case = one seeded parameter set (spot, strike, barrier, expiry date, rates, vol, observation frequency) '
         'x one enum member; configurations are stratified over barrier above/below/at strike, spot above/below/at '
@@ -38,7 +43,7 @@ def gl_nodes(n=200):
 
 
 def run(ctx):
-    drivers_ok = C.lean_stage(ctx, GEN, PROPS, DRIVERS)
+    drivers_ok = C.lean_stage(ctx, GEN, PROPS, DRIVERS, extra_files=['FinVerif/Model/C11.lean', 'FinVerif/Lemmas/C11.lean', 'FinVerif/Spec/Exotics.lean'])
     C.import_financepy()
     import numpy as np
     from scipy.stats import norm
@@ -537,6 +542,8 @@ def run(ctx):
     run_more(ctx, locals())
     from props import c11_reuse
     c11_reuse.run(ctx, locals())      # one object, several markets: value must not depend on pricing history
+    from props import c11_grow
+    c11_grow.run(ctx, locals(), drivers_ok)   # growth round: Exotic2 / loop models (Driver/C11x), FX lookbacks, FX digitals, large carry
 
     # ================================================================== correspondence: one driver run for all ops
     model_out = None
@@ -581,11 +588,22 @@ def run(ctx):
         '10^12 observations per year in the continuity and expectation oracles',
         'slices of product methods: argument guards, year fractions and curve reads before/inside the numerical part are not in '
         'the generated model; they are exercised by the product-class correspondence',
+        'bivariate-normal symmetries (M(a,b,c)+M(a,-b,-c)=N(a), M(a,b,c)-M(-a,-b,c)=N(a)+N(b)-1, phi2(a,b,c)+phi2(-a,b,-c)=N(b)) are '
+        'HYPOTHESES of the rainbow / compound / chooser theorems (true of the exact bivariate normal; validated numerically for the '
+        'coded Drezner approximation); identities that use N(x)+N(-x)=1 carry the hypothesis x != 0 (the coded polynomial is off by '
+        '1e-9 at 0)',
+        'Gen/Exotic2*: `isinstance(model, BlackScholes)` is unwrapped (the model is a BlackScholes object), the string tests '
+        'prem_currency == for_name / dom_name become two integer flags, accrued_average is a number; hand models of the cliquet and '
+        'variance-swap loops (Model/C11.lean) take the curve reads and the per-option values as inputs — all compared with the '
+        'implementation through Driver/C11x on every run',
+        'lookback oracles in the large-carry region judge a case only where the power (s/x)^|w| times the absolute accuracy of the '
+        'coded N (7.5e-8) stays below 1e-4 x scale',
     ]
     return C.finish(ctx, 'proof',
                     'lake build ' + ' '.join(PROPS) + ' && lake env lean .cache/audit/Audit_C11.lean',
-                    C.TRUSTED_BASE_COMMON + ['registry/exotics.py source rewrites (np.any on scalars, constant-false if, elif-assignment '
-                                             'chains, literal-range loop unrolling) preserve meaning on the shapes they accept'],
+                    C.TRUSTED_BASE_COMMON + ['registry/exotics.py, registry/exotics2.py source rewrites (np.any on scalars, constant-false if, '
+                                             'elif-assignment chains, literal-range loop unrolling, isinstance(model, BlackScholes) unwrapping, '
+                                             'premium-currency string tests as integer flags) preserve meaning on the shapes they accept'],
                     RULE)
 
 
